@@ -11,7 +11,7 @@ def run(tier):
     chk.rule = ("model: Writer.tla with an always-enabled Crash: every interleaving of staging, write system calls, close and "
                 "rename for named plain/compressed outputs incl. rotation onto an existing name; traces: each scenario (writers "
                 "directly and through the exporter; plain/gzip/xz; several rotations; rotation onto an existing name, onto the "
-                "name in use (a -> a) and back onto an earlier one (a -> b -> a); "
+                "name in use (a -> a) and back onto an earlier one (a -> b -> a); '.part' files left by a run that died; "
                 "destruction with and without buffered data) is first run to completion, then re-run in a child that is "
                 "killed immediately before its k-th write/writev/rename for EVERY k; TLC checks every post-crash directory; "
                 "distinct = crash points")
@@ -26,6 +26,11 @@ def run(tier):
         writer_model(chk, f"MCWriter(Scn4: rotation onto the name in use / an earlier name, compressed={comp})", "Scn4", True, comp)
     writer_model(chk, "MCWriter[WBug=open_before_close] (self-test, must fail)", "Scn4", True, False,
                  bug="open_before_close", expect="violated")
+    for comp in (True, False):
+        writer_model(chk, f"MCWriter(Scn1 with stale '.part' files of names 1..3, compressed={comp})", "Scn1", True, comp,
+                     prepart="{1, 2, 3}")
+    writer_model(chk, "MCWriter[WBug=append_part] (self-test, must fail)", "Scn1", True, False, bug="append_part",
+                 expect="violated", prepart="{1, 2, 3}")
     writer_model(chk, "MCWriter[WBug=rename_before_flush] (self-test, must fail)", "Scn1", True, True,
                  bug="rename_before_flush", expect="violated")
     writer_model(chk, "MCWriter[WBug=write_final_name] (self-test, must fail)", "Scn1", True, False,
@@ -37,6 +42,9 @@ def run(tier):
         s["pre"] = [2]
     scs += wscs[: (12 if tier == "quick" else 200)]
     scs += reuse_scenarios(rng, tier)
+    # '.part' files left by an earlier run that died while producing the same names: the new outputs start afresh
+    stale = [dict(s, id=s["id"] + 20000, prepart=[1, 2, 3]) for s in scs if s["id"] % 3 == 0]
+    scs += stale
     m = run_scenarios(chk, "c15", scs, {"C15"}, "c15")
     chk.distinct = m["execs"]
     chk.exhaustive = True
